@@ -8,7 +8,6 @@ import (
 	"io"
 	"net"
 	"net/http"
-	"net/netip"
 	"os"
 	"runtime"
 	"sort"
@@ -56,14 +55,14 @@ type c34Fault struct {
 
 const (
 	c34Normal          = iota
-	c34RawReqShort            // raw client: request DATA shorter than content-length
-	c34RawReqLong             // raw client: request DATA longer than content-length
-	c34RawRespShort           // raw server: response DATA shorter than content-length
-	c34RawRespLong            // raw server: response DATA longer than content-length
-	c34HandlerShort           // real peers: handler declares Content-Length and writes less
-	c34HandlerLong            // real peers: handler declares Content-Length and writes more
-	c34ClientBodyShort        // real peers: Request.ContentLength larger than what Body yields
-	c34ClientBodyLong         // real peers: Request.ContentLength smaller than what Body yields
+	c34RawReqShort     // raw client: request DATA shorter than content-length
+	c34RawReqLong      // raw client: request DATA longer than content-length
+	c34RawRespShort    // raw server: response DATA shorter than content-length
+	c34RawRespLong     // raw server: response DATA longer than content-length
+	c34HandlerShort    // real peers: handler declares Content-Length and writes less
+	c34HandlerLong     // real peers: handler declares Content-Length and writes more
+	c34ClientBodyShort // real peers: Request.ContentLength larger than what Body yields
+	c34ClientBodyLong  // real peers: Request.ContentLength smaller than what Body yields
 )
 
 type c34Case struct {
@@ -71,18 +70,18 @@ type c34Case struct {
 	Decl  int `json:"decl,omitempty"`  // mismatch modes: the declared Content-Length
 	Delta int `json:"delta,omitempty"` // mismatch modes: how many octets the body is shorter/longer than Decl (>= 1)
 
-	Method      string  `json:"method"`
-	Path        string  `json:"path"`
-	Query       string  `json:"query,omitempty"`
-	ReqHdr      []c34KV `json:"req_hdr,omitempty"`
+	Method      string   `json:"method"`
+	Path        string   `json:"path"`
+	Query       string   `json:"query,omitempty"`
+	ReqHdr      []c34KV  `json:"req_hdr,omitempty"`
 	Cookies     []string `json:"cookies,omitempty"`
-	BodyKind    int     `json:"body_kind"` // 0 nil, 1 http.NoBody, 2 reader
-	ReqSeed     byte    `json:"req_seed"`
-	ReqChunks   []int   `json:"req_chunks,omitempty"` // sizes returned by successive Body.Read calls
-	ReqDecl     bool    `json:"req_decl,omitempty"`   // Request.ContentLength set to the true size
-	EOFWithData bool    `json:"eof_with_data,omitempty"`
-	ReqTrailers []c34KV `json:"req_trailers,omitempty"`
-	TrEarly     bool    `json:"tr_early,omitempty"` // trailer values already set before RoundTrip
+	BodyKind    int      `json:"body_kind"` // 0 nil, 1 http.NoBody, 2 reader
+	ReqSeed     byte     `json:"req_seed"`
+	ReqChunks   []int    `json:"req_chunks,omitempty"` // sizes returned by successive Body.Read calls
+	ReqDecl     bool     `json:"req_decl,omitempty"`   // Request.ContentLength set to the true size
+	EOFWithData bool     `json:"eof_with_data,omitempty"`
+	ReqTrailers []c34KV  `json:"req_trailers,omitempty"`
+	TrEarly     bool     `json:"tr_early,omitempty"` // trailer values already set before RoundTrip
 
 	Order         int        `json:"order"` // 0 read the request, then reply; 1 reply header + first chunk + flush, read, rest
 	SrvRead       int        `json:"srv_read"`
@@ -91,7 +90,7 @@ type c34Case struct {
 	RespSeed      byte       `json:"resp_seed"`
 	RespChunks    []c34Chunk `json:"resp_chunks,omitempty"`
 	RespDecl      bool       `json:"resp_decl,omitempty"`
-	ExplicitWH    bool       `json:"explicit_wh,omitempty"` // call WriteHeader explicitly
+	ExplicitWH    bool       `json:"explicit_wh,omitempty"`    // call WriteHeader explicitly
 	RespTrailers  []c34KV    `json:"resp_trailers,omitempty"`  // announced in a Trailer header
 	RespPTrailers []c34KV    `json:"resp_ptrailers,omitempty"` // http.TrailerPrefix
 	CliRead       int        `json:"cli_read"`
@@ -216,9 +215,18 @@ func c34GenFaults(t *rapid.T) []c34Fault {
 		}
 		return fs[i].Idx < fs[j].Idx
 	})
-	// one fault per datagram; never three consecutive datagrams of one direction dropped
+	// one fault per datagram; never three consecutive datagrams of one direction dropped;
+	// at most two drops among the first ten datagrams of a direction (the QUIC handshake
+	// gives up after 10 s, and every loss there costs a doubled probe timeout)
 	var out []c34Fault
+	var early [2]int
 	for _, f := range fs {
+		if f.Act == 1 && f.Idx < 10 {
+			if early[f.Dir] >= 2 {
+				continue
+			}
+			early[f.Dir]++
+		}
 		if n := len(out); n > 0 && out[n-1].Dir == f.Dir && out[n-1].Idx == f.Idx {
 			continue
 		}
@@ -342,7 +350,7 @@ type c34Net struct {
 	faults map[[2]int]c34Fault
 	closed bool // shutting down: no new delayed deliveries
 	count  [2]int
-	stats  [4]int // delivered, dropped, delayed, duplicated
+	stats  [4]int         // delivered, dropped, delayed, duplicated
 	wg     sync.WaitGroup // delayed deliveries in flight
 }
 
@@ -397,10 +405,15 @@ type c34ReqBody struct {
 	i           int
 	eofWithData bool
 	atEOF       func()
+	wait        func() // called before every Read but the first
+	reads       int
 	closed      bool
 }
 
 func (b *c34ReqBody) Read(p []byte) (int, error) {
+	if b.reads++; b.reads > 1 && b.wait != nil {
+		b.wait()
+	}
 	if len(b.data) == 0 {
 		if b.atEOF != nil {
 			b.atEOF()
@@ -450,6 +463,7 @@ type c34Seen struct {
 	wroteTotal int
 	done       bool
 	doneCh     chan struct{}
+	calledCh   chan struct{}
 }
 
 func c34Clone(h http.Header) http.Header {
@@ -463,6 +477,7 @@ func c34Clone(h http.Header) http.Header {
 func c34Handler(c c34Case, seen *c34Seen) http.Handler {
 	return http.HandlerFunc(func(w http.ResponseWriter, r *http.Request) {
 		seen.called = true
+		close(seen.calledCh)
 		seen.method, seen.path, seen.rawQuery, seen.host, seen.proto = r.Method, r.URL.Path, r.URL.RawQuery, r.Host, r.ProtoMajor
 		if r.URL.Path == "" && r.RequestURI == "*" {
 			seen.path = "*"
@@ -593,7 +608,8 @@ func c34RunReal(t *testing.T, c c34Case, r *vp.Rec) error {
 	for _, f := range c.Faults {
 		n.faults[[2]int{f.Dir, f.Idx}] = f
 	}
-	seen := &c34Seen{doneCh: make(chan struct{})}
+	start := time.Now()
+	seen := &c34Seen{doneCh: make(chan struct{}), calledCh: make(chan struct{})}
 	srv := &server{config: &quic.Config{TLSConfig: testTLSConfig}, handler: c34Handler(c, seen)}
 	se, err := n.endpoint(0, srv.config)
 	if err != nil {
@@ -667,6 +683,15 @@ func c34RunReal(t *testing.T, c c34Case, r *vp.Rec) error {
 		}
 		if c.Mode == c34ClientBodyShort || c.Mode == c34ClientBodyLong {
 			req.ContentLength = int64(c.Decl)
+			// Let the part of the body that was accepted reach the handler before the
+			// client notices the mismatch and resets the stream (otherwise the request
+			// is usually cancelled before the server has seen its HEADERS frame).
+			rb.wait = func() {
+				select {
+				case <-seen.calledCh:
+				case <-time.After(5 * time.Second):
+				}
+			}
 		}
 	}
 	for _, kv := range c.ReqHdr {
@@ -781,7 +806,15 @@ func c34RunReal(t *testing.T, c c34Case, r *vp.Rec) error {
 
 	// ---- normal exchange: everything must arrive exactly ----
 	if got.err != nil {
-		return fmt.Errorf("%s: %v", what("RoundTrip failed"), got.err)
+		alive, cerr := vpAlive(cc.qconn)
+		var appErr *quic.ApplicationError
+		if !alive && !errors.As(cerr, &appErr) && n.stats[1] > 0 {
+			// the QUIC connection itself gave up (handshake or idle timeout under loss):
+			// nothing was delivered unfaithfully, the exchange just did not happen
+			r.Discard("QUIC connection lost under the fault schedule: " + cerr.Error())
+			return nil
+		}
+		return fmt.Errorf("%s: %v (connection alive=%v: %v; %v of fake time)", what("RoundTrip failed"), got.err, alive, cerr, time.Since(start))
 	}
 	if !seen.called {
 		return fmt.Errorf("%s", what("the handler was not called"))
@@ -1030,5 +1063,3 @@ func c34Known(c c34Case) string {
 func TestVP_C34(t *testing.T) {
 	vp.Run(t, vp.Spec[c34Case]{ID: "C34", CrashFile: true, Gen: c34Gen, Prop: c34Prop, Known: c34Known})
 }
-
-var _ = netip.AddrPort{}
